@@ -83,7 +83,6 @@ let handle kind fs obs =
       | _ -> add ("ex=e" ^ show_err e ^ " by=-"))
    | Fault x -> add ("!fault:" ^ show_fault x));
   let gp r = let s = show_exp r ^ "/" ^ show_va (get_proc_address v r) in s in
-  let bind_t f = (match mby with Ok t -> f t | Err e -> Err e | Fault x -> Fault x) in
   let mres = List.map (fun q ->
     let p = Array.of_list (String.split_on_char ':' q) in
     let n k = n_of_string p.(k) in
@@ -91,9 +90,11 @@ let handle kind fs obs =
     (* a C string given to Import::ByName ends at its first NUL *)
     let cut l = let rec go = function [] -> [] | x :: r -> if x = N0 then [] else x :: go r in go l in
     let s = (match p.(0), mby with
-      | "gpo", _ | "gpio", _ -> gp (bind_t (fun t -> ordinal cstr t (n 1)))
-      | "gpn", _ -> gp (bind_t (fun t -> name cstr t (nm 1)))
-      | "gpi", _ -> gp (bind_t (fun t -> import_ cstr t (ByName (n 1, cut (nm 2)))))
+      (* get_export(key) = exports()?.by()?.<lookup>(key): the extracted Model/Exports.v get_export_* (theorems C08_no_fault_get_proc_address,
+         C08_get_export_shape), not a recomposition in OCaml *)
+      | "gpo", _ | "gpio", _ -> gp (get_export_ordinal v dd (n 1))
+      | "gpn", _ -> gp (get_export_name v dd (nm 1))
+      | "gpi", _ -> gp (get_export_import v dd (ByName (n 1, cut (nm 2))))
       | _, Err _ | _, Fault _ -> "x"
       | "ord", Ok t -> show_exp (ordinal cstr t (n 1))
       | "idx", Ok t -> show_exp (index cstr t (n 1))
